@@ -4,7 +4,8 @@
    frame_by_frame_calculation as operations of a history on ONE instance whose
    buffer initially holds arbitrary stale values). *)
 From Coq Require Import ZArith List Bool.
-From Verif Require Import lib.ZList Stft.Model Stft.History.
+From Verif Require Import lib.ZList Stft.Model Stft.History C04.SiHistory.
+From Verif Require C03.Model.
 Import ListNotations.
 Open Scope Z_scope.
 
@@ -52,3 +53,35 @@ Theorem stft_full_when_idle :
   started s = false -> step c s (OFull x) = (s, Some (full_frames c x)).
 Proof. exact @full_when_idle_l. Qed.
 Print Assumptions stft_full_when_idle.
+
+(* ---- short-integration computer (model coq/C03/Model.v) ---- *)
+(* any two idle instances - whatever utterances, chunkings, repeated finalize calls
+   they went through - give the same feature matrix for the next utterance, computed at
+   once or streamed in any chunks, and are idle again afterwards *)
+Theorem si_full_fresh_twin :
+  forall (K : Type) (kzero : K) (kadd kmul : K -> K -> K) (phi post : K -> K),
+  (forall a b c, kadd a (kadd b c) = kadd (kadd a b) c) ->
+  (forall a, kadd kzero a = a) -> (forall a, kadd a kzero = a) ->
+  forall (c : C03.Model.cfg K) (st1 st2 : C03.Model.state K) (d : C03.Model.dtype) (xs : list K),
+  C03.Model.pre K c -> C03.Model.started K st1 = false -> C03.Model.started K st2 = false ->
+  C03.Model.is_floating d = true ->
+  exists s1 s2 rows,
+    C03.Model.compute_full K kzero kadd kmul phi post c st1 (d, xs) = C03.Model.Ok (s1, d, rows) /\
+    C03.Model.compute_full K kzero kadd kmul phi post c st2 (d, xs) = C03.Model.Ok (s2, d, rows) /\
+    C03.Model.started K s1 = false /\ C03.Model.started K s2 = false.
+Proof. exact si_full_fresh_twin_l. Qed.
+Print Assumptions si_full_fresh_twin.
+
+Theorem si_stream_fresh_twin :
+  forall (K : Type) (kzero : K) (kadd kmul : K -> K -> K) (phi post : K -> K),
+  (forall a b c, kadd a (kadd b c) = kadd (kadd a b) c) ->
+  (forall a, kadd kzero a = a) -> (forall a, kadd a kzero = a) ->
+  forall (c : C03.Model.cfg K) (st1 st2 : C03.Model.state K) (d : C03.Model.dtype) (chunks : list (list K)),
+  C03.Model.pre K c -> C03.Model.started K st1 = false -> C03.Model.started K st2 = false ->
+  C03.Model.is_floating d = true -> chunks <> [] ->
+  exists s1 s2 rows,
+    C03.Model.si_stream K kzero kadd kmul phi post c st1 (map (fun ch => (d, ch)) chunks) = C03.Model.Ok (s1, d, rows) /\
+    C03.Model.si_stream K kzero kadd kmul phi post c st2 (map (fun ch => (d, ch)) chunks) = C03.Model.Ok (s2, d, rows) /\
+    C03.Model.started K s1 = false /\ C03.Model.started K s2 = false.
+Proof. exact si_stream_fresh_twin_l. Qed.
+Print Assumptions si_stream_fresh_twin.
